@@ -149,11 +149,28 @@ static void idft_case(uint64_t N, MODULE_TYPE mt, int native, uint64_t rs, uint6
   uint8_t* tmp = gb_alloc(&gt, vec_znx_idft_tmp_bytes(mod), 8, 8, 4096);
   gb_prefill(&g1, 3, rep);
   vec_znx_dft(mod, (VEC_ZNX_DFT*)d1, as, A.p, as, A.sl);
+  // FFT64, every other repetition: the spectrum scaled by 2^14 .. 2^19, i.e. inverse transforms with coefficients beyond 2^53 (what a
+  // product near the precision budget leaves): the conversion to integers then runs in its wide regime
+  if (mt != NTT120 && (rep & 1))
+    for (uint64_t i = 0; i < as * N; i++) ((double*)d1)[i] = ldexp(((double*)d1)[i], 14 + (int)(rep % 6));
   memcpy(d2, d1, as * dft_b);
+  uint8_t* keep = malloc(as * dft_b + 8);
+  memcpy(keep, d1, as * dft_b);
   gb_prefill(&g3, 1, 0);
   vec_znx_idft(mod, (VEC_ZNX_BIG*)out, rs, (VEC_ZNX_DFT*)d2, as, tmp);
   vec_znx_idft(mod, (VEC_ZNX_BIG*)d1, rs, (VEC_ZNX_DFT*)d1, as, tmp);
   if (memcmp(d1, out, rs * big_b)) viol("oracle", "vec_znx_idft with res == a_dft differs from the out-of-place call (N=%" PRIu64 " res=%" PRIu64 " a=%" PRIu64 " %s)", N, rs, as, mt == NTT120 ? "NTT120" : "FFT64");
+  // the variant that may destroy its input, writing over it (FFT64: same element size for both views)
+  if (mt != NTT120) {
+    memcpy(d1, keep, as * dft_b);
+    memcpy(d2, keep, as * dft_b);
+    gb_prefill(&g3, 2, 1);
+    vec_znx_idft_tmp_a(mod, (VEC_ZNX_BIG*)out, rs, (VEC_ZNX_DFT*)d2, as);
+    vec_znx_idft_tmp_a(mod, (VEC_ZNX_BIG*)d1, rs, (VEC_ZNX_DFT*)d1, as);
+    if (memcmp(d1, out, rs * big_b)) viol("oracle", "vec_znx_idft_tmp_a with res == a_dft differs from the out-of-place call (N=%" PRIu64 " res=%" PRIu64 " a=%" PRIu64 ")", N, rs, as);
+    cnt("alias:vec_znx_idft_tmp_a(res==a_dft)", 1);
+  }
+  free(keep);
   long wh;
   if (gb_check(&g1, &wh) || gb_check(&g2, &wh) || gb_check(&g3, &wh) || gb_check(&gt, &wh)) viol("canary", "idft in place wrote outside an object (%ld)", wh);
   cnt("aliased_pairs", 1);
